@@ -19,7 +19,7 @@ import (
 )
 
 type C11Op struct {
-	Op   string   `json:"op"` // load | loadc | edit | clear
+	Op   string   `json:"op"` // load | loadc | edit | clear | remove | restore
 	Root int      `json:"root,omitempty"`
 	File int      `json:"file,omitempty"`
 	Dirs []IncDir `json:"dirs,omitempty"`
@@ -150,17 +150,32 @@ func c11Check(c *C11Case) (ds []ev.Discrepancy, classes []string) {
 		return l
 	}
 	shared := newLoader()
+	gone := map[int]bool{}
 	loads, edits := 0, 0
 	cls := map[string]bool{}
 	for si, op := range c.Ops {
 		switch op.Op {
 		case "edit":
 			dirs[op.File], body[op.File] = op.Dirs, op.Body
+			gone[op.File] = false
 			write(op.File)
 			shared.InvalidateFile(c10Path(root, op.File))
 			edits++
 			if loads > 0 {
 				cls["edit-between-loads"] = true
+			}
+		case "remove":
+			// the file disappears from disk (a change on disk like any other), and the loader is told
+			_ = os.Remove(c10Path(root, op.File))
+			gone[op.File] = true
+			shared.InvalidateFile(c10Path(root, op.File))
+			cls["file-removed"] = true
+		case "restore":
+			if gone[op.File] {
+				gone[op.File] = false
+				write(op.File)
+				shared.InvalidateFile(c10Path(root, op.File))
+				cls["file-restored"] = true
 			}
 		case "clear":
 			shared.ClearCache()
@@ -237,7 +252,11 @@ func genC11(t *rapid.T) *C11Case {
 	c.Depth = rapid.SampledFrom([]int{0, 0, 0, 2, 3, 4}).Draw(t, "depthlimit")
 	steps := rapid.IntRange(2, 6).Draw(t, "steps")
 	for s := 0; s < steps; s++ {
-		switch rapid.IntRange(0, 9).Draw(t, "op") {
+		switch rapid.IntRange(0, 11).Draw(t, "op") {
+		case 10:
+			c.Ops = append(c.Ops, C11Op{Op: "remove", File: rapid.IntRange(0, n-1).Draw(t, "file")})
+		case 11:
+			c.Ops = append(c.Ops, C11Op{Op: "restore", File: rapid.IntRange(0, n-1).Draw(t, "file")})
 		case 0:
 			c.Ops = append(c.Ops, C11Op{Op: "clear"})
 		case 1, 2, 3:
